@@ -247,6 +247,15 @@ def step (st : St) (op impl : List String) : St × Verdict :=
     | _, _, _ => (st, .badop "reload result")
   | ["join", h, id, user, pw] => joinStep st false h id user pw impl
   | ["joinsys", h, id] => joinStep st true h id "-" "-" impl
+  | ["dupleave", _] =>
+    match impl with
+    | ["ok"] => (st, .ok)
+    | [r] =>
+      if r.startsWith "bad:" then
+        (st, .oracle s!"C14: a departure reported by several goroutines at once was announced to the remaining members more than once (or not at all): {r}")
+      else if r.startsWith "env:" then (st, .ok)
+      else (st, .mismatch "ok")
+    | _ => (st, .mismatch "ok")
   | [lv, h] =>
     if lv == "leave" || lv == "leaveforce" then
       match nat? h with
